@@ -18,7 +18,9 @@ LEVEL = "exploration"
 RULE = ("complete product zoo entry (one per Term subclass/variant, from the live modules) x operand slot x table pair (plain, "
         "aliased, schema-qualified, None -> plain/aliased/None), directly and nested under every other entry (sampled on the quick "
         "tier); every clause slot of SELECT/INSERT/UPDATE/DELETE/upsert/CTE/subquery statements per dialect class; seeded random "
-        "compositions. non-trivial = the old table occurs in the object; distinct = (recipe, slot, pair)")
+        "compositions (a mismatch there is a violation of its own); the old table inside a scalar-subquery operand with fields or "
+        "plain constants in the other slots; statements holding same-shaped terms over the same column names on two tables, "
+        "subqueries in IN lists / tuples / arrays / BETWEEN. non-trivial = the old table occurs in the object; distinct = (recipe, slot, pair)")
 ASSUMPTIONS = ["renderings are compared under namespace-forced contexts of two dialect classes (generic and MySQL)"]
 ANCHORS = ["Term.replace_table", "Field.replace_table", "Tuple.replace_table", "BasicCriterion.replace_table",
            "ContainsCriterion.replace_table", "BetweenCriterion.replace_table", "BitwiseAndCriterion.replace_table",
@@ -70,6 +72,16 @@ def cases(tier, seed, shard, nshards):
                 k += 1
                 if k % nshards == shard:
                     yield {"k": "term", "e": e["label"], "slot": slot, "pair": list(pair), "inner": None}
+    # the reference to the old table sits inside a scalar subquery operand; the other operands are fields or plain constants
+    for ei, e in enumerate(entries):
+        for slot in range(e["arity"]):
+            if e["cls"] in ("AtTimezone", "Values"):
+                continue  # these constructors take a column (Field or name) only
+            for oform in ("field", "const"):
+                for pair in PAIRS[:3]:
+                    k += 1
+                    if k % nshards == shard:
+                        yield {"k": "term", "e": e["label"], "slot": slot, "pair": list(pair), "inner": None, "tform": "subquery", "oform": oform}
     # nested: the old table sits one level deeper
     rnd = random.Random("C16:%d:%d" % (seed, shard))
     for ei, e in enumerate(entries):
@@ -119,8 +131,12 @@ def build_term(case, t_target, t_other):
                 ie = entry(case["inner"])
                 iops = [fld(t_target if j == case["islot"] else t_other, "q%d" % j) for j in range(ie["arity"])]
                 op = ie["make"](iops)
+            elif case.get("tform") == "subquery":
+                op = reg["Query"].from_(t_target).select(reg["fn.Max"](fld(t_target, "p%d" % i))).where(fld(t_target, "w") > 0)
             else:
                 op = fld(t_target, "p%d" % i)
+        elif case.get("oform") == "const":
+            op = reg["ValueWrapper"](7 + i)
         else:
             op = fld(t_other, "p%d" % i)
         ops.append(op)
@@ -178,6 +194,8 @@ def run_term(case, mon):
         key = "nested:%s#%d:%s#%d" % (case["e"], case["slot"], case["inner"], case["islot"])
     else:
         key = "%s#%d" % (case["e"], case["slot"])
+        if case.get("tform"):
+            key = "subquery-operand:" + key + (":constants-elsewhere" if case.get("oform") == "const" else "")
         if "none" in case["pair"]:
             key += ":" + pair
     if check(mon, key, a, b, t_old, t_new, "%s slot %d%s, %s" % (case["e"], case["slot"], (" nested in " + case["inner"]) if case.get("inner") else "", pair)):
@@ -282,13 +300,32 @@ def _stmts():
     def setop(Q, t, o):
         return Q.from_(t).select(t.a).union(Q.from_(o).select(o.a))
 
+    def sel_twin_terms(Q, t, o):
+        # same-shaped terms over the same column names on two tables (equal hashes without namespaces)
+        return (Q.from_(t).join(o).on(t.id == o.id).select(fn("Count")(t.id), fn("Count")(o.id), t.rank + 1, o.rank + 1, t.name, o.name)
+                .groupby(fn("Upper")(t.name), fn("Upper")(o.name)).orderby(t.rank + 1, o.rank + 1).having(fn("Max")(t.v) > fn("Max")(o.v)))
+
+    def sel_twin_terms_where(Q, t, o):
+        return (Q.from_(o).from_(t).select(fn("Coalesce")(o.a, 0), fn("Coalesce")(t.a, 0))
+                .where((fn("Abs")(o.x) > 1) & (fn("Abs")(t.x) > 1)).where(o.k.isin([1, 2])).where(t.k.isin([1, 2])))
+
+    def sel_subquery_list(Q, t, o):
+        lo, hi = Q.from_(t).select(fn("Min")(t.x)), Q.from_(t).select(fn("Max")(t.x))
+        return Q.from_(o).select(o.a).where(o.x.isin([lo, hi, 0]))
+
+    def sel_subquery_operands(Q, t, o):
+        sub = lambda c: Q.from_(t).select(fn("Max")(c))  # noqa: E731
+        return (Q.from_(o).select(o.a, reg["Array"](sub(t.z), 1)).where(o.b > sub(t.b)).where(o.c.between(sub(t.c), 9))
+                .where(reg["Tuple"](o.x, o.y) == reg["Tuple"](sub(t.x), sub(t.y))).where(fn("Coalesce")(sub(t.d), 0) < 5))
+
     return {k: v for k, v in locals().items() if callable(v) and k not in ("S", "fn", "T")}
 
 
 STATEMENTS = ["sel_from", "sel_all_clauses", "sel_join_item", "sel_join_criterion", "sel_join_using", "sel_cross", "sel_star",
               "sel_subquery_where", "sel_subquery_from", "sel_cte", "sel_function_args", "sel_analytic", "sel_orderby_groupby_terms",
               "sel_for_update", "insert_values", "insert_select", "insert_into_target", "upsert", "upsert_conflict_where", "update_set",
-              "update_set_value_other", "update_join", "delete", "returning", "distinct_on", "prewhere", "rollup", "setop"]
+              "update_set_value_other", "update_join", "delete", "returning", "distinct_on", "prewhere", "rollup", "setop",
+              "sel_twin_terms", "sel_twin_terms_where", "sel_subquery_list", "sel_subquery_operands"]
 
 
 def run_stmt(case, mon):
@@ -343,10 +380,10 @@ def run_random(case, mon):
     def gen(depth, tt, want_crit=False):
         if depth <= 0 or rnd.random() < 0.3:
             return fld(tt if rnd.random() < 0.6 else t_other, rnd.choice("abcd"))
-        for _ in range(10):
+        while True:
             e = rnd.choice(entries)
             if e["cls"] in ("AtTimezone", "Values"):
-                continue
+                continue  # these take a column (Field or name) only
             if want_crit and "Criterion" not in e["cls"] and e["cls"] != "Not":
                 continue
             break
@@ -367,12 +404,13 @@ def run_random(case, mon):
         got = rendering(a.replace_table(t_old, t_new))
     except Exception as ex:
         mon.count("random_raises")
-        mon.add("random_raises", type(ex).__name__)
+        mon.violation("random:raises:%s:%s" % (type(a).__name__, type(ex).__name__), "replace_table raised %r on %r" % (ex, ra[0][:200]))
         return
     mon.count("renderings_compared")
-    if got != rendering(b):
-        # only new if no direct/nested systematic case explains it: classify by the first differing class name present
-        mon.count("random_mismatches_explained_by_systematic_cases")
+    rb = rendering(b)
+    if got != rb:
+        mon.violation("random:%s" % type(a).__name__, "random depth-3 term: replace_table gives %r, the same construction over the new table gives %r "
+                      "(receiver %r)" % (got[0][:260], rb[0][:260], ra[0][:260]), {"replaced": got, "rebuilt": rb})
         return
     mon.nontrivial(case)
 
